@@ -3,7 +3,11 @@
 Proofs in coq/Props/C10.v; correspondence of the extracted model with ptt.Recommend on a planted board;
 direct predicates on the implementation's own outputs after every step: the article file only grew by the
 returned line, the line has the comment format, .DIR changed only in bytes 28..31 and 33 of the addressed
-entry, the score is clamp(old + delta) within [-100, 100], refused comments leave both files untouched."""
+entry, the score is clamp(old + delta) within [-100, 100], refused comments leave both files untouched.
+Board sessions (ops 2/3 of the driver): several articles and several commenters on boards with every combination of
+the comment-related board attributes (aligned, IP log, no-comment, no-boo, no-fast-recommend) and pause values, the
+comments issued back to back: the outcome of a comment may depend only on its own type and on the addressed entry -
+never on what anybody commented before (a push carries the push mark and moves the score by +1 whatever preceded it)."""
 import os, re, struct, sys
 sys.path.insert(0, os.path.join(os.path.dirname(os.path.abspath(__file__)), "..", "lib"))
 import vf
@@ -119,6 +123,115 @@ def line_ok(sc, ct, text, line):
     return None
 
 
+def mark_type(line):
+    for ct in (1, 2, 3):
+        if line.startswith(MARK[ct] + b" "):
+            return ct
+    return 0 if line.startswith(b" " + ESC + b"[33m") else 9
+
+
+TYPE_NAME = {1: "push", 2: "boo", 3: "arrow"}
+
+
+class BoardSession:
+    """a planted board with several commentable articles, several commenters, all comment-related attributes"""
+    def __init__(self, rng, n, targets, flags, pause, users, ip=b"10.1.2.3", arts=None):
+        # targets: [(entry index, score, filemode, link)]; flags: (align, iplog, norec, noboo, nofast); users: [(uid number, sysop, id)]
+        self.flags, self.pause, self.users, self.ip, self.targets = tuple(flags), pause, users, ip, targets
+        self.align, self.iplog, self.norec = flags[0], flags[1], flags[2]
+        recs, self.names = [], []
+        tmap = {t[0]: t for t in targets}
+        byidx = {}
+        for i in range(n):
+            if i in tmap:
+                _, score, fm, link = tmap[i]
+                r, name = entry(i, score, fm, rng, b"L" if link else b"M")
+                byidx[i] = name
+            else:
+                r, _ = entry(i, rng.randrange(-100, 101), rng.choice([0, 0, 2, 16, 18, 1]), rng)
+            recs.append(r)
+        self.names = [byidx[t[0]] for t in targets]
+        self.dir = b"".join(recs)
+        self.arts = arts if arts is not None else [b"\xa7@\xaa\xcc: SYSOP\n\xbc\xd0\xc3D: article %d\n\nbody\n--\n" % j for j in range(len(targets))]
+        self.steps = []          # (user, article, type, text)
+        self.tried = set()
+
+    def line(self, op=2, obs=None, steps=None):
+        steps = self.steps if steps is None else steps
+        g = ["%d" % op, toks(list(self.flags) + [self.pause]), toks(self.dir), toks(self.ip), "%d %d" % (len(self.names), len(self.users))]
+        g += [toks(nm.ljust(28, b"\0")) for nm in self.names]
+        g += [toks(a) for a in self.arts]
+        g += [toks([u, so] + list(uid)) for u, so, uid in self.users]
+        g += [toks([u, a, ct] + list(txt)) for u, a, ct, txt in steps]
+        if obs is not None:
+            g += ["99"] + [toks(o) for o in obs]
+        return "|".join(g)
+
+    def refused(self, a):
+        _, _, fm, link = self.targets[a]
+        return bool(self.norec or link or (fm & FILE_MARKED and fm & FILE_SOLVED))
+
+    def expected_digest(self, steps=None):
+        """the reference written here: what the digest (op 3) of this history must be, step by step"""
+        steps = self.steps if steps is None else steps
+        score = [t[1] for t in self.targets]
+        out = []
+        for u, a, ct, txt in steps:
+            if self.refused(a):
+                out.append("3 1 0 0")
+                continue
+            new = clamp(score[a] + DELTA.get(ct, 0))
+            out.append("0 %d %d %d 1 0 0" % (ct if ct in MARK else 0, score[a], new))
+            score[a] = new
+        return out
+
+    def describe(self, steps=None):
+        steps = self.steps if steps is None else steps
+        return "board attrs aligned=%d iplog=%d nocomment=%d noboo=%d nofastrecommend=%d pause=%d; " % (self.flags + (self.pause,)) + \
+               ", ".join("%s by %s on article %d" % (TYPE_NAME.get(ct, "type %d" % ct), self.users[u][2].decode("latin1"), a) for u, a, ct, _ in steps[-6:])
+
+
+class _Who:          # what line_ok needs to know about the commenter and the board
+    def __init__(self, bs, u):
+        self.uid, self.ip, self.align, self.iplog = bs.users[u][2], bs.ip, bs.align, bs.iplog
+
+
+def parse_board_steps(res):
+    """op 2: as parse_steps, an accepted step carries the number of OTHER article files that changed at its end"""
+    t = res.split()
+    if t[0] != "0":
+        return None
+    n = int(t[1]); pos = 2
+    out = []
+    for _ in range(n):
+        if t[pos] == "3":
+            out.append(("err", int(t[pos + 1]), int(t[pos + 2]), int(t[pos + 3]))); pos += 4
+            continue
+        assert t[pos] == "0"
+        ln = int(t[pos + 1]); pos += 2
+        line = bytes(int(x) for x in t[pos:pos + ln]); pos += ln
+        mtime, preserved, na = int(t[pos]), int(t[pos + 1]), int(t[pos + 2]); pos += 3
+        app = bytes(int(x) for x in t[pos:pos + na]); pos += na
+        nd = int(t[pos]); pos += 1
+        diff = [(int(t[pos + 2 * k]), int(t[pos + 2 * k + 1])) for k in range(nd)]; pos += 2 * nd
+        score, others = int(t[pos]), int(t[pos + 1]); pos += 2
+        out.append(("ok", line, mtime, preserved, app, diff, score, others))
+    assert pos == len(t)
+    return out
+
+
+def split_digest(res, n):
+    """op 3 result -> one string per step (None if the result is not a digest of n steps)"""
+    t = res.split()
+    if t[:1] != ["0"] or len(t) < 2 or int(t[1]) != n:
+        return None
+    out, pos = [], 2
+    for _ in range(n):
+        w = 4 if t[pos] == "3" else 7
+        out.append(" ".join(t[pos:pos + w])); pos += w
+    return out if pos == len(t) else None
+
+
 def clamp(x):
     return max(-100, min(100, x))
 
@@ -137,12 +250,19 @@ def main():
         vf.ipc_cleanup()
     c.finish(rule="every start score in [-100,100] planted in a scratch .DIR x one comment of every type (push, boo, arrow, and two types without a mark) on plain, "
                   "aligned and IP-logging boards; PRNG(seed) sequences of <= 40 comments on three articles (different positions in the index, different contents) with texts "
-                  "of 0..120 bytes incl. DBCS lead/trail bytes; the three refusal conditions and their near misses. A step is non-trivial if it is a distinct "
-                  "(start score, type, board flags, text) accepted comment or a distinct refusal class",
+                  "of 0..120 bytes incl. DBCS lead/trail bytes; the three refusal conditions and their near misses; board sessions: all 32 combinations of the "
+                  "comment-related board attributes (aligned, IP log, no-comment, no-boo, no-fast-recommend) x FastRecommendPause {0,1,60,255} with 3 articles x 3 commenters "
+                  "(different uid numbers, one with PERM_SYSOP) commenting back to back, and PRNG(seed) histories of <= 40 comments by 2-4 commenters on 2-4 articles "
+                  "(locked and link entries among them) with random attributes and pauses; every history is run twice (full observation, digest). A step is non-trivial if it "
+                  "is a distinct (start score, type, board flags, text) accepted comment, a distinct refusal class, or in a board session a distinct (attributes, pause class, "
+                  "type, saturated, what the previous step was: type / same commenter / same article)",
              assumptions=["the clock string of the line and the article's mtime after the append are observed from the implementation and fed to the model",
                           "the index entry is found by name; cmsys.GetRecord/FindRecordStartIdx are the subject of C06 (names in the planted .DIR are unique and sorted by time)",
                           "permission checks before the refusal conditions (C07/C08) are passed by the driver's user; ptt.Recommend is called directly (bbs.CreateComment cannot address a link entry by article id)",
-                          "sequential comments only: the non-blocking flock retry path and concurrent commenters are outside this check"])
+                          "sequential comments only: the non-blocking flock retry path and concurrent commenters are outside this check",
+                          "board sessions issue their comments back to back (milliseconds apart) in one driver process, one board (bid 10); nothing in the verdict depends on the "
+                          "clock: on the unchanged tree the outcome of a comment is a function of its type and the addressed entry. A rule that would need comments more than "
+                          "a pause apart to show (minutes of waiting) is not exercised"])
 
 
 def judge(c, sc, steps, label):
@@ -189,6 +309,136 @@ def judge(c, sc, steps, label):
             c.violation("mtime", "%s: Modified of the entry is not the article's modification time" % label, {"cases": case, "got": repr(diff)[:200]})
         c.nontrivial(("step", score, ct, sc.align, sc.iplog, bytes(text)))
         score = after
+
+
+def first_bad(bs, steps, dg):
+    """index of the first step whose digest differs from the reference (None: all agree)"""
+    exp = bs.expected_digest(steps)
+    if dg is None:
+        return 0
+    for k, (e, g) in enumerate(zip(exp, dg)):
+        if e != g:
+            return k
+    return None
+
+
+def shrink_board(bs, steps, impl, budget=24):
+    """shortest history (greedy removal of earlier steps) whose digest still differs from the reference"""
+    def digest(st):
+        r = vf.run_impl(impl, "C10", [bs.line(3, steps=st)], deadline_ms=120000)[0]
+        return split_digest(r, len(st)) if r.split()[:1] == ["0"] else None
+    dg = digest(steps)
+    k = first_bad(bs, steps, dg)
+    if k is None:
+        return None, None
+    steps = steps[:k + 1]
+    i = len(steps) - 2
+    while i >= 0 and budget > 0:
+        trial = steps[:i] + steps[i + 1:]
+        budget -= 1
+        d2 = digest(trial)
+        k2 = first_bad(bs, trial, d2)
+        if k2 is not None:
+            steps = trial[:k2 + 1]
+            i = min(i, len(steps) - 1)
+        i -= 1
+    return steps, digest(steps)
+
+
+def board_violation(c, impl, key, desc, bs, upto):
+    """a violation seen in a board session: the replay is the shrunk history as an op-3 case with the expected digest.
+    When the session alone (fresh process) does not show it, it is deferred: the driver process carried something over
+    from the sessions before it; flush_deferred() then replays the whole batch up to this session."""
+    if key in [v[0] for v in c.violations] or key in bs.tried:
+        return
+    bs.tried.add(key)
+    steps, dg = shrink_board(bs, bs.steps[:upto + 1], impl)
+    if steps is None and upto + 1 < len(bs.steps):
+        steps, dg = shrink_board(bs, bs.steps, impl)      # this step needed the sessions before it; a later one of this session may not
+    if steps is None:
+        DEFERRED.append((key, desc, bs, upto))
+        return
+    exp = "0 %d " % len(steps) + " ".join(bs.expected_digest(steps))
+    got = "0 %d " % len(steps) + " ".join(dg) if dg else "no digest"
+    c.violation(key, desc + " [shrunk history: " + bs.describe(steps) + "; " + DIGEST_DOC + "]",
+                {"cases": [bs.line(3, steps=steps)], "expected": exp, "got": got})
+
+
+DEFERRED = []
+DIGEST_DOC = ("digest per step: status, type mark of the appended line, score before, score after, grew by the returned line, "
+              "other article files changed, .DIR offsets outside Modified/Recommend")
+
+
+def flush_deferred(c, batch):
+    """violations that no single session reproduces on its own: replay = all sessions of the batch up to the failing one, in one process"""
+    for key, desc, bs, upto in DEFERRED:
+        if key in [v[0] for v in c.violations]:
+            continue
+        i = batch.index(bs)
+        exp = "0 %d " % len(bs.steps) + " ".join(bs.expected_digest())
+        c.violation(key, desc + " [not shown by this session alone in a fresh process: the replay runs the %d sessions before it in the same process; %s]" % (i, DIGEST_DOC),
+                    {"cases": [b.line(3) for b in batch[:i + 1]], "expected": exp, "got": "see what"})
+    del DEFERRED[:]
+
+
+def judge_board(c, impl, bs, steps, dg, label):
+    """direct predicates on one board session: op-2 observations [steps] and the op-3 digest [dg] of a second run"""
+    score = [t[1] for t in bs.targets]
+    cur_dir = bytearray(bs.dir)
+    for k, ((u, a, ct, text), st) in enumerate(zip(bs.steps, steps)):
+        who = bs.users[u][2].decode("latin1")
+        if bs.refused(a):
+            if st[0] != "err":
+                board_violation(c, impl, "not-refused", "%s: a comment was accepted although the board/article refuses comments (%s)" % (label, bs.describe(bs.steps[:k + 1])), bs, k)
+            elif st[2] or st[3]:
+                board_violation(c, impl, "refusal-trace", "%s: a refused comment changed %s" % (label, "an article file" if st[2] else ".DIR"), bs, k)
+            else:
+                c.nontrivial(("board-refused", bs.flags, bs.targets[a][2], bs.targets[a][3]))
+            continue
+        if st[0] == "err":
+            continue          # "a successful comment ..."; the correspondence and the digest comparison report it
+        _, line, mtime, preserved, app, diff, after, others = st
+        base = bs.targets[a][0] * REC
+        allowed = set(range(base + 28, base + 32)) | {base + 33}
+        if not preserved:
+            board_violation(c, impl, "rewrite", "%s: earlier bytes of the article file changed" % label, bs, k)
+        elif app != line:
+            board_violation(c, impl, "append-mismatch", "%s: the bytes appended to the article are not the returned line" % label, bs, k)
+        if others:
+            board_violation(c, impl, "other-article", "%s: a comment on one article changed %d other article file(s)" % (label, others), bs, k)
+        got_type = mark_type(line)
+        if ct in MARK and got_type != ct:
+            board_violation(c, impl, "type-rewritten",
+                            "%s: a successful %s by %s was appended with %s; it depends on what was commented before on this board (%s)"
+                            % (label, TYPE_NAME[ct], who, "the %s mark" % TYPE_NAME[got_type] if got_type in MARK else "no type mark", bs.describe(bs.steps[:k + 1])), bs, k)
+        else:
+            why = line_ok(_Who(bs, u), ct, bytes(text), line)
+            if why and b"\n" not in bytes(text) and b"\x1b" not in bytes(text):
+                board_violation(c, impl, "line-format", "%s: the comment line does not have the format (%s)" % (label, why), bs, k)
+        if b"\n" not in bytes(text) and line.count(b"\n") != 1:
+            board_violation(c, impl, "line-lf", "%s: the comment is not exactly one line" % label, bs, k)
+        bad = [o for o, _ in diff if o not in allowed]
+        if bad:
+            board_violation(c, impl, "index-frame", "%s: .DIR changed outside Modified/Recommend of the addressed entry (offsets %s, entry at %d)" % (label, bad[:8], base), bs, k)
+        for o, v in diff:
+            if 0 <= o < len(cur_dir):
+                cur_dir[o] = v
+        want = clamp(score[a] + DELTA.get(ct, 0))
+        planted = cur_dir[base + 33] - 256 if cur_dir[base + 33] > 127 else cur_dir[base + 33]
+        if after != want or planted != want or not -100 <= after <= 100 or abs(after - score[a]) > 1:
+            board_violation(c, impl, "score", "%s: score %d, a successful %s by %s -> %d (expected %d); %s"
+                            % (label, score[a], TYPE_NAME.get(ct, "comment of type %d" % ct), who, after, want, bs.describe(bs.steps[:k + 1])), bs, k)
+        if struct.unpack("<i", bytes(cur_dir[base + 28:base + 32]))[0] != mtime:
+            board_violation(c, impl, "mtime", "%s: Modified of the entry is not the article's modification time" % label, bs, k)
+        prev = bs.steps[k - 1] if k else None
+        c.nontrivial(("board-step", bs.flags, min(bs.pause, 2), ct, score[a] in (-100, 100), prev and (prev[2], prev[0] == u, prev[1] == a)))
+        score[a] = after
+    # the digest of an independent second run of the same history against the reference written in this check
+    kbad = first_bad(bs, bs.steps, dg)
+    if kbad is not None:
+        exp = bs.expected_digest()
+        board_violation(c, impl, "history", "%s: step %d of a comment history does not have the outcome its own type and the addressed entry determine: got [%s], expected [%s]; %s"
+                        % (label, kbad, dg[kbad] if dg else "no digest", exp[kbad], bs.describe(bs.steps[:kbad + 1])), bs, kbad)
 
 
 def observations(steps):
@@ -285,6 +535,74 @@ def run(c, rng, thorough, impl, model):
     o = drive(scs, "refusal conditions")
     c.cov["exhaustive_parts"].append("no-comment board, link entry, marked-and-solved (6 file modes) and 5 near-miss file modes x 3 types x 4 scores")
     c.sample({"op": "Recommend refused", "result": o[0][:60]})
+
+    # ---------------------------------------------------------------- 4. board sessions: several articles, several commenters, all attributes
+    def drive_boards(bss, label):
+        l2 = [bs.line(2) for bs in bss]
+        o2 = vf.run_impl(impl, "C10", l2, deadline_ms=120000)
+        l3 = [bs.line(3) for bs in bss]
+        o3 = vf.run_impl(impl, "C10", l3, deadline_ms=120000)
+        parsed = []
+        for bs, line, res in zip(bss, l2, o2):
+            st = res.split()[0]
+            if st in ("1", "2"):
+                c.violation("crash" if st == "1" else "hang", "%s: ptt.Recommend %s" % (label, "panics" if st == "1" else "hangs"), {"cases": [line], "got": res[:100]})
+                parsed.append(None)
+                continue
+            if st != "0":
+                raise SystemExit("C10: bad case from the generator: " + line[:200])
+            parsed.append(parse_board_steps(res))
+        if model:
+            idx = [i for i, p in enumerate(parsed) if p is not None]
+            lm = [bss[i].line(2, observations(parsed[i])) for i in idx]
+            mo = vf.run_model(model, lm)
+            vf.correspond(c, label, lm, [o2[i] for i in idx], mo)
+        for bs, p, r3 in zip(bss, parsed, o3):
+            if p is not None:
+                dg = split_digest(r3, len(bs.steps)) if r3.split()[:1] == ["0"] else None
+                judge_board(c, impl, bs, p, dg, label)
+        flush_deferred(c, bss)
+        c.count(2 * sum(len(bs.steps) for bs in bss), label)
+        return o3
+
+    people = [(1, 1, b"SYSOP"), (2, 0, b"A1"), (3, 0, b"abcdefghijkl"), (4, 0, b"B2"), (5, 0, b"Zed9"), (2, 0, b"A1")]
+    bss = []
+    # every combination of the five comment-related attributes x pause values: pushes in quick succession by several users on
+    # several articles, the same user twice, boos and arrows in between, a saturated article
+    for flags in [(a, i, nr, nb, nf) for a in (0, 1) for i in (0, 1) for nr in (0, 1) for nb in (0, 1) for nf in (0, 1)]:
+        for pause in (255, 60, 1, 0):
+            users = rng.sample(people[:5], 3)
+            bs = BoardSession(rng, 5, [(0, rng.choice([0, -3, 41]), 0, False), (2, rng.choice([98, -99, 7]), rng.choice([0, 2, 16]), False), (4, 99, 0, False)],
+                              flags, pause, users, ip=rng.choice([b"127.0.0.1", b"255.255.255.255", b"8.8.8.8"]))
+            if flags[2]:
+                bs.steps = [(0, 0, 1, b"p"), (1, 1, 2, b"b"), (2, 2, 3, b"a"), (0, 0, 1, b"p")]
+            else:
+                bs.steps = [(0, 0, 1, b"push"), (1, 1, 1, text(30)), (0, 0, 1, b"push"), (2, 0, 1, text(30)), (1, 2, 1, b"up"), (2, 2, 1, b"up"),
+                            (1, 0, 2, b"boo"), (1, 0, 2, b"boo"), (0, 1, 3, b"arrow"), (2, 1, 1, b"after an arrow"), (0, 1, 2, b"boo"), (1, 1, 1, b"after a boo"),
+                            (0, 2, 2, b"down"), (0, 2, 1, b"up again")]
+                bs.steps += [(rng.randrange(3), rng.randrange(3), rng.choices([1, 2, 3], (5, 2, 1))[0], text(40)) for _ in range(rng.randrange(0, 6))]
+            bss.append(bs)
+    o = drive_boards(bss, "board sessions: every attribute combination x pause")
+    c.cov["exhaustive_parts"].append("board attributes {aligned, IP log, no-comment, no-boo, no-fast-recommend} (all 32 combinations) x FastRecommendPause {0, 1, 60, 255}: "
+                                     "%d boards, 3 articles x 3 commenters, pushes back to back by different users and by the same user, boos/arrows in between, saturation" % len(bss))
+    c.sample({"op": "board session digest", "attrs": bss[7].flags, "pause": bss[7].pause, "steps": len(bss[7].steps), "result": o[7][:160]})
+
+    bss = []
+    for _ in range(300 if thorough else 40):
+        flags = (rng.choice([0, 1]), rng.choice([0, 1]), rng.choice([0, 0, 0, 0, 0, 1]), rng.choice([0, 1]), rng.choice([0, 1, 1]))
+        k = rng.choice([2, 3, 4])
+        n = k + rng.randrange(0, 4)
+        where = sorted(rng.sample(range(n), k))
+        targets = [(i, rng.choice([-100, -99, -1, 0, 1, 98, 99, 100, rng.randrange(-100, 101)]), rng.choice([0, 0, 0, 1, 2, 16, 0x12, 8]), rng.random() < 0.08) for i in where]
+        users = rng.sample(people, rng.choice([2, 3, 4]))
+        bs = BoardSession(rng, n, targets, flags, rng.choice([0, 1, 2, 5, 30, 60, 255, rng.randrange(256)]), users,
+                          ip=rng.choice([b"127.0.0.1", b"255.255.255.255", b"8.8.8.8"]),
+                          arts=[rng.choice([b"short\n", b"\xa7@\xaa\xcc: SYSOP\n\nbody\n--\n", bytes(rng.randrange(256) for _ in range(300)) + b"\n"]) for _ in range(k)])
+        bias = rng.choice([(8, 1, 1), (3, 3, 2), (1, 6, 1)])
+        bs.steps = [(rng.randrange(len(users)), rng.randrange(k), rng.choices([1, 2, 3, 0, 4], bias + (0.2, 0.2))[0], text(60)) for _ in range(rng.randrange(2, 41))]
+        bss.append(bs)
+    o = drive_boards(bss, "board sessions: random histories")
+    c.sample({"op": "board session digest (random)", "attrs": bss[0].flags, "pause": bss[0].pause, "steps": len(bss[0].steps), "result": o[0][:160]})
 
 
 if __name__ == "__main__":
